@@ -66,6 +66,46 @@ def _is_guard(test):
     return False
 
 
+def _is_writer_install(st):
+    """self.writer = <...>.Writer(self.fp, ...)  (a fastavro writer created on the spot)"""
+    if not (isinstance(st, ast.Assign) and len(st.targets) == 1 and _self_attr(st.targets[0]) == "writer"
+            and isinstance(st.value, ast.Call)):
+        return False
+    f = st.value.func
+    name = f.attr if isinstance(f, ast.Attribute) else (f.id if isinstance(f, ast.Name) else None)
+    return name == "Writer" and bool(st.value.args) and _self_attr(st.value.args[0]) == "fp"
+
+
+def avro_flush_shape(AvroWriter):
+    """AvroWriter.flush: True  = `if not self.writer: self.writer = Writer(...)`; `self.writer.flush()`
+                         False = `if self.writer: self.writer.flush()`"""
+    fn = AvroWriter.flush
+    body = _strip_doc(_fdef(fn).body)
+
+    def is_writer_flush(st):
+        return (isinstance(st, ast.Expr) and isinstance(st.value, ast.Call) and not st.value.args and not st.value.keywords
+                and isinstance(st.value.func, ast.Attribute) and st.value.func.attr == "flush"
+                and _self_attr(st.value.func.value) == "writer")
+
+    def is_writer_truth(t):
+        return _self_attr(t) == "writer" or (
+            isinstance(t, ast.Compare) and len(t.ops) == 1 and isinstance(t.ops[0], ast.IsNot) and _self_attr(t.left) == "writer"
+            and isinstance(t.comparators[0], ast.Constant) and t.comparators[0].value is None)
+
+    def is_writer_false(t):
+        return (isinstance(t, ast.UnaryOp) and isinstance(t.op, ast.Not) and _self_attr(t.operand) == "writer") or (
+            isinstance(t, ast.Compare) and len(t.ops) == 1 and isinstance(t.ops[0], ast.Is) and _self_attr(t.left) == "writer"
+            and isinstance(t.comparators[0], ast.Constant) and t.comparators[0].value is None)
+
+    if len(body) == 1 and isinstance(body[0], ast.If) and not body[0].orelse and is_writer_truth(body[0].test) \
+            and len(body[0].body) == 1 and is_writer_flush(body[0].body[0]):
+        return False
+    if len(body) == 2 and isinstance(body[0], ast.If) and not body[0].orelse and is_writer_false(body[0].test) \
+            and len(body[0].body) == 1 and _is_writer_install(body[0].body[0]) and is_writer_flush(body[1]):
+        return True
+    raise Unsupported("AvroWriter.flush has neither of the two known shapes (%s)" % _where(fn, body[0] if body else _fdef(fn)))
+
+
 def call_events(fn):
     """The calls a simple method body makes, in source order, as ('self', m) for self.m() and (attr, m) for
     self.attr.m(); guarded blocks (`if <truthiness of self attributes>:` without else) are flattened; assignments
@@ -92,6 +132,9 @@ def call_events(fn):
                 continue
             if isinstance(st, ast.Assign) and len(st.targets) == 1 and _self_attr(st.targets[0]) \
                     and isinstance(st.value, ast.Constant) and st.value.value is None:
+                continue
+            if _is_writer_install(st):
+                events.append(("writer", "install"))
                 continue
             raise Unsupported("unrecognised statement in %s" % _where(fn, st))
 
@@ -175,7 +218,11 @@ def split_write_shape(SplitWriter):
 
 
 def rotation_formats(PathTemplateWriter):
-    """(strftime spec of the rotation stamp, format of the rotated file name) from rotate_existing_file"""
+    """(strftime spec of the rotation stamp, format of the rotated file name, format with a counter or None)
+    from rotate_existing_file.  The counter format is reported only for the exact loop
+        counter = 0
+        while os.path.exists(dst): counter += 1; dst = os.path.join(src_dir, "<...{counter}...>".format(**locals()))
+    placed before the os.rename call."""
     fn = PathTemplateWriter.rotate_existing_file
     node = _fdef(fn)
     stamp_spec = None
@@ -204,13 +251,59 @@ def rotation_formats(PathTemplateWriter):
                 stamp_spec = v.args[0].value
             if stamp_spec is None:
                 raise Unsupported("rotation stamp is not built by formatting `now` with a literal spec (%s)" % _where(fn, st))
-        if isinstance(st, ast.Constant) and isinstance(st.value, str) and "{stamp}" in st.value:
+        if isinstance(st, ast.Constant) and isinstance(st.value, str) and "{stamp}" in st.value and "{counter}" not in st.value:
             name_fmt = st.value
     if stamp_spec is None:
         raise Unsupported("no `stamp = ...` assignment in %s" % fn.__qualname__)
     if name_fmt is None:
         raise Unsupported("no rotated-name format mentioning {stamp} in %s" % fn.__qualname__)
-    return stamp_spec, name_fmt
+
+    def is_exists_dst(t):
+        return (isinstance(t, ast.Call) and len(t.args) == 1 and isinstance(t.args[0], ast.Name) and t.args[0].id == "dst"
+                and not t.keywords and isinstance(t.func, ast.Attribute) and t.func.attr == "exists"
+                and isinstance(t.func.value, ast.Attribute) and t.func.value.attr == "path"
+                and isinstance(t.func.value.value, ast.Name) and t.func.value.value.id == "os")
+
+    def dst_counter_format(st):
+        """dst = os.path.join(src_dir, "<fmt>".format(**locals())) -> fmt"""
+        if not (isinstance(st, ast.Assign) and len(st.targets) == 1 and isinstance(st.targets[0], ast.Name) and st.targets[0].id == "dst"):
+            return None
+        v = st.value
+        if not (isinstance(v, ast.Call) and isinstance(v.func, ast.Attribute) and v.func.attr == "join" and len(v.args) == 2
+                and isinstance(v.args[0], ast.Name) and v.args[0].id == "src_dir"):
+            return None
+        f = v.args[1]
+        if isinstance(f, ast.Call) and isinstance(f.func, ast.Attribute) and f.func.attr == "format" \
+                and isinstance(f.func.value, ast.Constant) and isinstance(f.func.value.value, str):
+            return f.func.value.value
+        return None
+
+    counter_fmt = None
+    loops = [n for n in ast.walk(node) if isinstance(n, (ast.While, ast.For))]
+    renames = [n for n in ast.walk(node) if isinstance(n, ast.Call) and isinstance(n.func, ast.Attribute) and n.func.attr == "rename"
+               and isinstance(n.func.value, ast.Name) and n.func.value.id == "os"]
+    if len(renames) != 1:
+        raise Unsupported("rotate_existing_file does not call os.rename exactly once")
+    if loops:
+        if len(loops) != 1 or not isinstance(loops[0], ast.While) or loops[0].orelse or not is_exists_dst(loops[0].test):
+            raise Unsupported("unrecognised loop in %s" % _where(fn, loops[0]))
+        lp = loops[0]
+        body = lp.body
+        ok = (len(body) == 2 and isinstance(body[0], ast.AugAssign) and isinstance(body[0].op, ast.Add)
+              and isinstance(body[0].target, ast.Name) and body[0].target.id == "counter"
+              and isinstance(body[0].value, ast.Constant) and body[0].value.value == 1)
+        fmt = dst_counter_format(body[1]) if ok else None
+        if not fmt or "{counter}" not in fmt or fmt.replace("-{counter}", "") != name_fmt:
+            raise Unsupported("the free-name loop of rotate_existing_file is not `counter += 1; dst = join(src_dir, "
+                              "\"{fname}.{stamp}-{counter}.{ext}\".format(**locals()))` (%s)" % _where(fn, lp))
+        # counter = 0 right before the loop, the loop before the rename
+        inits = [n for n in ast.walk(node) if isinstance(n, ast.Assign) and len(n.targets) == 1 and isinstance(n.targets[0], ast.Name)
+                 and n.targets[0].id == "counter"]
+        if len(inits) != 1 or not (isinstance(inits[0].value, ast.Constant) and inits[0].value.value == 0) \
+                or not (inits[0].lineno < lp.lineno < renames[0].lineno):
+            raise Unsupported("the free-name loop of rotate_existing_file is not initialised with counter = 0 before os.rename")
+        counter_fmt = fmt
+    return stamp_spec, name_fmt, counter_fmt
 
 
 def shapes():
@@ -239,6 +332,11 @@ def shapes():
     avro_flushes = _before(ev_avro, ("self", "flush"), [("fp", "close")])
     if avro_flushes is None:
         raise Unsupported("AvroWriter.close never closes self.fp")
+    # the placeholder writer is installed by close() only when it is installed before the flush (or the close of fp)
+    avro_close_placeholder = bool(_before(ev_avro, ("writer", "install"), [("self", "flush"), ("fp", "close")]))
+    if ("writer", "install") in ev_avro and not avro_close_placeholder:
+        raise Unsupported("AvroWriter.close installs a writer after flushing / closing")
+    avro_flush_placeholder = avro_flush_shape(AvroWriter)
     ev_stream = call_events(StreamWriter.close)
     closers = [("stream", "close"), ("fp", "close")]
     s1 = _before(ev_stream, ("self", "flush"), closers)
@@ -246,8 +344,10 @@ def shapes():
     if s1 is None:
         raise Unsupported("StreamWriter.close closes neither self.stream nor self.fp")
     ge, steps = split_write_shape(SplitWriter)
-    stamp_spec, name_fmt = rotation_formats(PathTemplateWriter)
+    stamp_spec, name_fmt, counter_fmt = rotation_formats(PathTemplateWriter)
     return dict(exit=exit_calls, del_=del_calls, avro_close_flushes=bool(avro_flushes),
+                avro_flush_placeholder=avro_flush_placeholder, avro_close_placeholder=avro_close_placeholder,
+                rotate_counter=counter_fmt is not None, rotated_name_counter_format=counter_fmt or "",
                 stream_close_flushes=bool(s1 or s2), split_ge=ge, split_roll=steps,
                 stamp_spec=stamp_spec, rotated_name_format=name_fmt)
 
@@ -264,7 +364,8 @@ def gen_writers():
         raise Unsupported("DEFAULT_RECORD_COUNT is %r" % (count,))
     if not (isinstance(suffix, int) and not isinstance(suffix, bool) and suffix >= 0):
         raise Unsupported("DEFAULT_SUFFIX_LENGTH is %r" % (suffix,))
-    for name, text in (("DEFAULT_TEMPLATE", tmpl), ("stamp spec", sh["stamp_spec"]), ("rotated name format", sh["rotated_name_format"])):
+    for name, text in (("DEFAULT_TEMPLATE", tmpl), ("stamp spec", sh["stamp_spec"]), ("rotated name format", sh["rotated_name_format"]),
+                       ("rotated name format with counter", sh["rotated_name_counter_format"])):
         if not (isinstance(text, str) and all(32 <= ord(c) < 127 for c in text)):
             raise Unsupported("%s is not printable ASCII text: %r" % (name, text))
     out = HEADER
@@ -275,12 +376,16 @@ def gen_writers():
     out += "(* flow/record/stream.py PathTemplateWriter *)\n"
     out += "Definition default_template : string := %s.\n" % cstr(tmpl)
     out += "Definition rotation_stamp_format : string := %s.   (* strftime spec of the stamp put into a rotated name *)\n" % cstr(sh["stamp_spec"])
-    out += "Definition rotated_name_format : string := %s.\n\n" % cstr(sh["rotated_name_format"])
+    out += "Definition rotated_name_format : string := %s.\n" % cstr(sh["rotated_name_format"])
+    out += "Definition rotated_name_counter_format : string := %s.   (* \"\" = no free-name loop *)\n\n" % cstr(sh["rotated_name_counter_format"])
     out += "(* shapes of AbstractWriter.__exit__ / __del__, AvroWriter.close, StreamWriter.close, SplitWriter.write *)\n"
     out += "Definition writer_shapes : shapes :=\n"
-    out += "  {| sh_exit := %s;\n     sh_del := %s;\n     sh_avro_close_flushes := %s;\n     sh_stream_close_flushes := %s;\n" % (
-        clist(sh["exit"]), clist(sh["del_"]), cbool(sh["avro_close_flushes"]), cbool(sh["stream_close_flushes"]))
-    out += "     sh_split_ge := %s;\n     sh_split_roll := %s |}.\n" % (cbool(sh["split_ge"]), clist(sh["split_roll"]))
+    out += "  {| sh_exit := %s;\n     sh_del := %s;\n     sh_avro_flush_placeholder := %s;\n     sh_avro_close_placeholder := %s;\n" % (
+        clist(sh["exit"]), clist(sh["del_"]), cbool(sh["avro_flush_placeholder"]), cbool(sh["avro_close_placeholder"]))
+    out += "     sh_avro_close_flushes := %s;\n     sh_stream_close_flushes := %s;\n" % (
+        cbool(sh["avro_close_flushes"]), cbool(sh["stream_close_flushes"]))
+    out += "     sh_split_ge := %s;\n     sh_split_roll := %s;\n     sh_rotate_counter := %s |}.\n" % (
+        cbool(sh["split_ge"]), clist(sh["split_roll"]), cbool(sh["rotate_counter"]))
     write_if_changed(GEN / "Gen_writers.v", out)
 
 
